@@ -128,6 +128,8 @@ func (dp *DPoVP) MineBlock(txProcessTimeout int64) (*types.Block, error) {
 	}
 
 	txs := dp.txPool.GetTxs(header.Time, params.MaxTxsForMiner)
+	// The pool may contain transactions from other forks which are on this fork too. Other nodes will refuse them, so do we
+	txs = dp.dropPackagedTxs(parentHeader.Hash(), txs)
 	block, invalidTxs, err := dp.assembler.MineBlock(header, txs, txProcessTimeout)
 	if err != nil {
 		if err == deputynode.ErrNoStableTerm {
@@ -146,6 +148,21 @@ func (dp *DPoVP) MineBlock(txProcessTimeout int64) (*types.Block, error) {
 		return nil, err
 	}
 	return block, nil
+}
+
+// dropPackagedTxs removes the transactions which have been packaged on the fork of parent block. They are deleted from pool too
+func (dp *DPoVP) dropPackagedTxs(parentHash common.Hash, txs types.Transactions) types.Transactions {
+	result := make(types.Transactions, 0, len(txs))
+	packaged := make(types.Transactions, 0)
+	for _, tx := range txs {
+		if dp.txGuard.ExistTx(parentHash, tx) {
+			packaged = append(packaged, tx)
+		} else {
+			result = append(result, tx)
+		}
+	}
+	dp.txPool.DelTxs(packaged)
+	return result
 }
 
 func (dp *DPoVP) InsertBlock(rawBlock *types.Block) (*types.Block, error) {
